@@ -82,6 +82,9 @@ func (ex *Exec) renderOpt(o *Obligation, extra []*Term, ground bool, positive bo
 		seen[f.id] = true
 		asserts = append(asserts, f)
 	}
+	if !ground && len(ex.bitCache) > 1 && len(ex.bitCache) <= 12 {
+		asserts = append(asserts, ex.bitLemmas()...)
+	}
 	asserts = append(asserts, o.PC)
 	if positive {
 		asserts = append(asserts, o.Goal)
@@ -277,7 +280,7 @@ func (ex *Exec) symbolsOf(t *Term) map[string]bool {
 // (transitively) another kept fact. Dropping assumptions is always sound for a proof; it only removes noise.
 // Quantified facts (axioms) are always kept.
 func (ex *Exec) relevantFacts(o *Obligation, extra []*Term) map[int]bool {
-	if o.Kind == "requires-sat" || o.Kind == "reach" {
+	if o.Kind == "requires-sat" || o.Kind == "reach" || os.Getenv("GOVC_NOCOI") != "" {
 		return nil // vacuity covers must see every fact
 	}
 	n := o.NFacts
